@@ -76,6 +76,11 @@ func wholeStores(a *ssa.Alloc) []*ssa.Store {
 }
 
 func checkC19(c *Ctx) {
+	// the per-transfer fee record is written twice on execution (fee paid, then fee kept): the second write
+	// must replace the first
+	c.R.Min("C19.record-overwrite", 1)
+	c.checkOverwrites("C19.record-overwrite", "TxFeeRecordKey", c.LiveReach(), "the fee-record setter stores every value it is given",
+		"the fee-record setter stores a record only depending on whether one already exists (test at %s): the reduction by the refund is dropped and the record reports the full fee paid instead of the fee kept")
 	c.checkKeyMakers("C19", 1)
 	p, r := c.P, c.R
 	reach := c.ConsensusReach()
